@@ -34,8 +34,22 @@ from beartype import beartype, BeartypeConf
 from bearverif.userclasses import UA, UB, UC, UGenList
 from beartype.vale import Is, IsEqual
 from bearverif.grammar import make_conf
+import functools
 CONF = make_conf({confkw!r})
 D = beartype(conf=CONF)
+PRE = {{}}
+
+
+def counted(fn):
+    """An ordinary functools.wraps decorator sitting underneath @beartype."""
+    @functools.wraps(fn)
+    def wrapper(*args, **kwargs):
+        wrapper.calls += 1
+        return fn(*args, **kwargs)
+    wrapper.calls = 0
+    wrapper.marker = 'm'
+    PRE[fn.__qualname__] = wrapper
+    return wrapper
 '''
 
 BODY = '''
@@ -47,8 +61,16 @@ class Base:
 class K(Base):
     """K doc"""
     {m}
+    def __init__(self, v: {h1} = None) -> None:
+        self._v = v
+    {m}
     def plain(self, x: {h1}) -> {h2}:
         """plain doc"""
+        return x
+    {m}
+    @counted
+    {f}
+    def pre(self, x: {h1}) -> {h2}:
         return x
     {m}
     @classmethod
@@ -109,27 +131,45 @@ class K(Base):
             pass
 
 {classdec}
+class Sub(K):
+    """a subclass decorated on its own: only what it defines itself is wrapped"""
+    {m}
+    def plain(self, x: {h2}) -> {h1}:
+        return x
+    {m}
+    def __call__(self, x: {h2}) -> {h2}:
+        return x
+    {m}
+    @classmethod
+    {f}
+    def cm(cls, x: {h1}) -> {h2}:
+        return x
+
+{classdec}
 @dataclass
 class DC:
     a: {h1}
     {m}
     def meth(self, x: {h1}) -> {h2}:
         return x
+{post}
 '''
 
+# the __init__ that @dataclass generates is a method of the class too: the by-hand routes decorate it after the fact
+POST = 'DC.__init__ = D(DC.__init__)'
 MEMBERS = ['plain', 'cm', 'sm', 'prop', 'prop', 'inner', 'meth']
-HAS_SELF = {'plain': True, 'cm': True, 'sm': False, 'prop': True, 'loose': True, 'gone': True, 'inner': True, 'nloose': True, 'meth': True}
+HAS_SELF = {'pre': True, '__init__': True, '__call__': True, 'plain': True, 'cm': True, 'sm': False, 'prop': True, 'loose': True, 'gone': True, 'inner': True, 'nloose': True, 'meth': True}
 
 
 def source(h1, h2, confkw, route):
     """route 'class': @D on the classes; route 'members': @D on every member the class defines."""
     if route == 'class':
-        return HEADER.format(confkw=confkw) + BODY.format(h1=h1, h2=h2, classdec='@D', m='', ms='', f='', nesteddec='')
+        return HEADER.format(confkw=confkw) + BODY.format(h1=h1, h2=h2, classdec='@D', m='', ms='', f='', nesteddec='', post='')
     if route == 'functions':
         # @D directly on the plain functions underneath the descriptors (and on plain methods)
         body = BODY.replace('    {m}\n    def ', '    @D\n    def ').replace('        {m}\n        def ', '        @D\n        def ')
-        return HEADER.format(confkw=confkw) + body.format(h1=h1, h2=h2, classdec='', m='', ms='', f='@D', nesteddec='')
-    return HEADER.format(confkw=confkw) + BODY.format(h1=h1, h2=h2, classdec='', m='@D', ms='@D', f='', nesteddec='')
+        return HEADER.format(confkw=confkw) + body.format(h1=h1, h2=h2, classdec='', m='', ms='', f='@D', nesteddec='', post=POST)
+    return HEADER.format(confkw=confkw) + BODY.format(h1=h1, h2=h2, classdec='', m='@D', ms='@D', f='', nesteddec='', post=POST)
 
 
 def cases(tier, seed):
@@ -179,7 +219,7 @@ def run_case(prop, name, spec, confkw, tier, src):
                                      'detail': '; '.join(problems)[:600], 'hint': name, 'confkw': confkw})
             else:
                 out.discharged += 1
-            for mname in ('plain', 'cm', 'sm', 'prop', 'loose', 'gone', 'inner', 'nloose', 'meth'):
+            for mname in ('pre', '__init__', '__call__', 'plain', 'cm', 'sm', 'prop', 'loose', 'gone', 'inner', 'nloose', 'meth'):
                 ra, rb = A.get(mname, []), B.get(mname, [])
                 if len(ra) != len(rb):
                     out.findings.append({'kind': 'c13_side', 'program': mname,
@@ -253,6 +293,16 @@ def concrete_side_conditions(nsA, nsB, A, B, routeB='members'):
             P.append(f'{route} route: unannotated method was wrapped')
         if k.__doc__ != 'K doc':
             P.append(f'{route} route: class docstring changed')
+        if route in ('class', 'members'):
+            # a member already wrapped by a functools.wraps decorator: beartype's wrapper exposes
+            # *that object* as __wrapped__ and carries its attributes over
+            w, orig = k.__dict__['pre'], ns['PRE']['K.pre']
+            if getattr(w, '__wrapped__', None) is not orig:
+                P.append(f'{route} route: pre.__wrapped__ is not the object that was decorated')
+            if getattr(w, 'marker', None) != 'm' or getattr(w, 'calls', None) != 0:
+                P.append(f'{route} route: attributes of the decorated object were not carried over to the wrapper of pre')
+            if w.__name__ != 'pre' or str(inspect.signature(w)) != str(inspect.signature(orig)):
+                P.append(f'{route} route: name / signature of pre changed')
 
     # identities
     def plainf(x):
@@ -284,7 +334,7 @@ def replay_c13(p):
     if p.get('program') == 'side':
         probs = concrete_side_conditions(nsA, nsB, by_name(rA), by_name(rB), src.get('route', 'members'))
         A, B = by_name(rA), by_name(rB)
-        for mname in ('plain', 'cm', 'sm', 'prop', 'loose', 'gone', 'inner', 'nloose', 'meth'):
+        for mname in ('pre', '__init__', '__call__', 'plain', 'cm', 'sm', 'prop', 'loose', 'gone', 'inner', 'nloose', 'meth'):
             if len(A.get(mname, [])) != len(B.get(mname, [])):
                 probs.append(f'{len(A.get(mname, []))} checking wrapper(s) generated for {mname} when decorating the class, '
                              f'{len(B.get(mname, []))} when decorating the {src.get("route", "members")}')
@@ -298,10 +348,17 @@ def replay_c13(p):
         PIN.value = p['draw']
         try:
             try:
+                idx = src.get('index', 0)
                 if m == 'plain':
-                    inst.plain(obj)
+                    (inst if idx == 0 else ns['Sub']()).plain(obj)
+                elif m == 'pre':
+                    inst.pre(obj)
+                elif m == '__init__':
+                    K(obj) if idx == 0 else ns['DC'](obj)
+                elif m == '__call__':
+                    ns['Sub']()(obj)
                 elif m == 'cm':
-                    K.cm(obj)
+                    (K if idx == 0 else ns['Sub']).cm(obj)
                 elif m == 'sm':
                     K.sm(obj)
                 elif m == 'inner':
